@@ -17,3 +17,17 @@ def need(results, rows, what):
     import vf
     if len(results) != len(rows):
         raise vf.Inconclusive("%s: harness returned %d results for %d rows" % (what, len(results), len(rows)))
+
+
+class Background:
+    """TLC runs that the replay does not depend on (contract model, deviation demos) run beside it."""
+
+    def __init__(self, *thunks):
+        import concurrent.futures as cf
+        self.ex = cf.ThreadPoolExecutor(max_workers=max(1, len(thunks)))
+        self.futs = [self.ex.submit(t) for t in thunks]
+
+    def join(self):
+        res = [f.result() for f in self.futs]   # re-raises vf.Inconclusive of a failed run
+        self.ex.shutdown()
+        return res
